@@ -46,6 +46,26 @@ CHECKS = {
         'note': _NOTE,
         'technique': 'TLA+ spec + TLC invariance theorems; spec->code replay on permuted/scaled worlds and shared-fitter histories; trace validation',
     },
+    'C19': {
+        'text': 'Crash.tla models the fit file as a stream of self-delimiting blocks (3 metadata + records), a crash at any byte, and the reader as a state machine '
+                '(open = load 3 blocks; iterate until no byte is left; a partial block fails).  TLC checks PrefixOrError, CleanStop, reader == ReadResult(blocks, cut) and termination for every '
+                'size pattern over {2,3,5} bytes, 1..3 (thorough 4) records and every cut.  The self-delimiting assumption is discharged on real bytes: real files (1-4 records, with/without predicted '
+                'fluxes, n_fits 0..n_models) are cut at EVERY offset, read with FitInfoFile, and the outcome (opened, records yielded, each compared NaN-aware with the written one, clean stop or error) '
+                'is validated by Trace_Crash against the real block sizes.',
+        'ref': 'DESIGN.md section 6 C19',
+        'note': _NOTE + ' To the letter of C19 an early failure is admitted; a record not wholly before the cut, a differing record, or opening without complete metadata is not.',
+        'technique': 'TLA+ spec of writer/crash/reader + TLC (safety + liveness); exhaustive truncation of real files validated as traces',
+    },
+    'C20': {
+        'text': 'SourceLine.tla gives from_ascii as its steps (column arithmetic, int/float conversion, setter cross-checks) over abstract tokens and, separately, the documented layout; '
+                'TLC checks on every token-class sequence of length 0..9 (thorough 0..12) over {flag int, other int, non-integer number, non-number} that a line is parsed by the layout or rejected, '
+                'that fewer than 3 columns ends the input, and that Format/Parse round-trips.  A seed-chosen 1/5 of those lines are rendered as text (two renderings each) and replayed through '
+                'Source.from_ascii with every parsed field compared, then to_ascii/from_ascii (printed precision), dict and pickle round trips.  Recorded data files (n <= 12 bands, one corruption per line, '
+                'short lines ending the input) are validated by Trace_SourceLine.',
+        'ref': 'DESIGN.md section 6 C20',
+        'note': _NOTE + ' Decimal formatting precision is compared by the harness, not by TLC.',
+        'technique': 'TLA+ spec over token classes + TLC exhaustive; spec->code replay of rendered lines; trace validation of recorded files',
+    },
     'C05': {
         'text': 'Select.tla states keep() over abstract floats (Fin/Big/Inf/NaN with IEEE rules).  TLC checks exhaustively, for every ranked '
                 'chi^2 vector of length 0..5 (thorough 0..6) over an 8-value alphabet with ties, infinity and NaN, n_data 0..3, 44 selectors '
